@@ -14,6 +14,7 @@
 #include <cstring>
 #include <functional>
 #include <limits>
+#include <new>
 #include <sstream>
 #include <string>
 #include <type_traits>
@@ -597,6 +598,100 @@ template <class T, class U> static void t_convert()
   g_nontrivial++;
 }
 
+
+// ------------------------------------------------------------------------------------------------ the padded shape: its value is (x,y,z) only
+// vec_t<T,3,true> has a 4th storage slot padding_ that is not a component and that no constructor initialises.  Two vectors
+// that were built independently carry different leftovers there.  Every operation must ignore the slot: operands are built by
+// placement-new into buffers pre-filled with DIFFERENT byte patterns through every construction form, with equal x,y,z and
+// different padding, and the reverse (equal padding, different z).  Oracle = comparison of the components by member name.
+static const unsigned char PADPAT[3] = {0x00, 0xFF, 0xA5};
+static const char *PADFORM[6] = {"component-wise ctor", "broadcast ctor + operator[] stores", "copy from unpadded vec_t<T,3>", "pointer ctor",
+                                 "copy of another padded vector + member stores", "converting ctor from vec_t<double,3>"};
+template <class T> struct PaddedBox
+{
+  typedef vec_t<T, 3, true> VA;
+  alignas(16) unsigned char buf[sizeof(VA)];
+  VA *p;
+  int form, pat;
+  void build(const T *c, int f, int pt)
+  {
+    form = f; pat = pt;
+    memset(buf, PADPAT[pat], sizeof buf);
+    bool viadouble = true;
+    for (int i = 0; i < 3; i++) if (!same((T)(double)c[i], c[i]) || (std::is_floating_point<T>::value && c[i] != c[i])) viadouble = false;
+    if (form == 5 && !viadouble) form = 0;
+    switch (form) {
+    case 0: p = new (buf) VA(c[0], c[1], c[2]); break;
+    case 1: p = new (buf) VA(c[0]); (*p)[1] = c[1]; (*p)[2] = c[2]; break;
+    case 2: { vec_t<T, 3> u(c[0], c[1], c[2]); p = new (buf) VA(u); } break;
+    case 3: p = new (buf) VA((const T *)c); break;
+    case 4: {
+      VA tmp(c[2], c[0], c[1]);
+      memset((char *)&tmp + 3 * sizeof(T), PADPAT[pat], sizeof(T));
+      p = new (buf) VA(tmp); p->x = c[0]; p->y = c[1]; p->z = c[2];
+    } break;
+    default: { vec_t<double, 3> u((double)c[0], (double)c[1], (double)c[2]); p = new (buf) VA(u); } break;
+    }
+    memset(buf + 3 * sizeof(T), PADPAT[pat], sizeof(T));       // the leftover, made deterministic
+  }
+  std::string how() const
+  {
+    char s[16]; snprintf(s, sizeof s, "0x%02X", PADPAT[pat]);
+    return std::string("[placement-new into a buffer pre-filled with ") + s + ", " + PADFORM[form] + "]";
+  }
+};
+template <class T> static void t_padded()
+{
+  typedef vec_t<T, 3, true> VA; typedef vec_t<T, 3> V;
+  T a[3], b[3];
+  fill(a, 3, MUL4); fill(b, 3, MUL4);
+  int sc = rndint(0, 5);               // 0,1,2: equal x,y,z + different padding; 3: equal padding, different z only; 4: equal x only; 5: unrelated
+  if (sc <= 3) { b[0] = a[0]; b[1] = a[1]; if (sc <= 2) b[2] = a[2]; }
+  if (sc == 4) b[0] = a[0];
+  bool hasnan = false;
+  for (int i = 0; i < 3; i++) if (a[i] != a[i] || b[i] != b[i]) hasnan = true;
+  int pa = rndint(0, 2), pb = sc <= 2 ? (pa + 1 + rndint(0, 1)) % 3 : sc == 3 ? pa : rndint(0, 2);
+  PaddedBox<T> A, B;
+  A.build(a, rndint(0, 5), pa); B.build(b, rndint(0, 5), pb);
+  const VA &va = *A.p, &vb = *B.p;
+  V ua(a[0], a[1], a[2]), ub(b[0], b[1], b[2]);
+  bool eq = a[0] == b[0] && a[1] == b[1] && a[2] == b[2];
+  bool any = a[0] < b[0] || a[1] < b[1] || a[2] < b[2];
+  bool lex = false;
+  for (int i = 0; i < 3; i++) { if (a[i] < b[i]) { lex = true; break; } if (!(a[i] == b[i])) break; }
+  std::string ops = "a=" + showa(a, 3) + " " + A.how() + " b=" + showa(b, 3) + " " + B.how();
+  std::string tn = std::string(TN<T>::n()) + "x3a";
+  EXPECT("padded/operator==/" + tn + "," + tn, (va == vb) == eq, ops + " got " + show((int)(va == vb)) + " want " + show((int)eq) + " (x,y,z compared by name; padding_ is not a component)");
+  EXPECT("padded/operator!=/" + tn + "," + tn, (va != vb) == !eq, ops + " got " + show((int)(va != vb)) + " want " + show((int)!eq));
+  EXPECT("padded/operator==/" + tn + ",unpadded", (va == ub) == eq && (ua == vb) == eq, ops + " got " + show((int)(va == ub)) + "," + show((int)(ua == vb)) + " want " + show((int)eq));
+  EXPECT("padded/operator!=/" + tn + ",unpadded", (va != ub) == !eq && (ua != vb) == !eq, ops + " got " + show((int)(va != ub)) + "," + show((int)(ua != vb)) + " want " + show((int)!eq));
+  EXPECT("padded/anyLessThan/" + tn, anyLessThan(va, vb) == any && anyLessThan(va, ub) == any && anyLessThan(ua, vb) == any, ops + " got " + show((int)anyLessThan(va, vb)) + " want " + show((int)any));
+  if (!hasnan) {
+    EXPECT("padded/std::less/" + tn, std::less<VA>()(va, vb) == lex, ops + " got " + show((int)std::less<VA>()(va, vb)) + " want " + show((int)lex));
+    bool lexba = false;
+    for (int i = 0; i < 3; i++) { if (b[i] < a[i]) { lexba = true; break; } if (!(a[i] == b[i])) break; }
+    EXPECT("padded/std::less(b,a)/" + tn, std::less<VA>()(vb, va) == lexba, ops + " got " + show((int)std::less<VA>()(vb, va)) + " want " + show((int)lexba));
+  }
+  // everything else that takes a whole padded object: copy, conversion to the unpadded shape, min / max, dot, reductions, streaming
+  VA cp(va);
+  V cu = va;
+  VA mn = min(va, vb), mx = max(va, vb);
+  for (int i = 0; i < 3; i++) {
+    EXPECT("padded/copy/" + tn, same(get(cp, i), a[i]) && same(get(cu, i), a[i]), ops + " component " + std::to_string(i) + " got " + show(get(cp, i)) + "," + show(get(cu, i)));
+    EXPECT("padded/min-max/" + tn, same(get(mn, i), std::min(a[i], b[i])) && same(get(mx, i), std::max(a[i], b[i])), ops + " component " + std::to_string(i) + " got " + show(get(mn, i)) + "," + show(get(mx, i)));
+  }
+  EXPECT("padded/copy==/" + tn, hasnan || ((cp == va) && !(cp != va) && (cu == va) && (va == cu)), ops + ": a copy does not compare equal to its source");
+  if (finite_all(a, 3) && finite_all(b, 3)) {
+    EXPECT("padded/dot/" + tn, same(dot(va, vb), dot(ua, ub)) && same(dot(va, ub), dot(ua, ub)) && same(dot(ua, vb), dot(ua, ub)), ops + " got " + show(dot(va, vb)) + " want " + show(dot(ua, ub)));
+    EXPECT("padded/reduce/" + tn, same(reduce_add(va), reduce_add(ua)) && same(reduce_mul(va), reduce_mul(ua)) && same(va.sum(), ua.sum()) && same(va.product(), ua.product()), ops);
+  }
+  if (!hasnan) EXPECT("padded/reduce_min-max/" + tn, same(reduce_min(va), reduce_min(ua)) && same(reduce_max(va), reduce_max(ua)), ops);
+  std::ostringstream o1, o2;
+  o1 << va; o2 << ua;
+  EXPECT("padded/operator<</" + tn, o1.str() == o2.str(), ops + " got " + o1.str() + " want " + o2.str());
+  if (sc <= 3) g_nontrivial++;
+}
+
 // ------------------------------------------------------------------------------------------------ per element type
 template <class T> static void all_for_type(int iters)
 {
@@ -617,6 +712,7 @@ template <class T> static void all_for_type(int iters)
     FloatOnly<V2>::run(); FloatOnly<V3>::run(); FloatOnly<V3A>::run(); FloatOnly<V4>::run();
     t_access<V2>(); t_access<V3>(); t_access<V3A>(); t_access<V4>();
     t_ctors<T>();
+    t_padded<T>(); t_padded<T>(); t_padded<T>();
   }
   printf("COV type_%s=%d\n", TN<T>::n(), iters);
 }
